@@ -83,10 +83,10 @@ def worker(task):
     kind, t = task
     if kind == 'fill':
         deck, pre = c05.make(t)
-        return deckprop.run_deck(PROP, 'deck%s' % (task,), deck, pre, what=('regions', 'compo'))
+        return deckprop.run_deck(PROP, 'deck%s' % (task,), deck, pre, what=('regions', 'compo', 'valid'))
     if kind == 'like':
         deck, pre = c15.make(t)
-        return deckprop.run_deck(PROP, 'deck%s' % (task,), deck, pre, what=('regions', 'compo'))
+        return deckprop.run_deck(PROP, 'deck%s' % (task,), deck, pre, what=('regions', 'compo', 'valid'))
     deck, pre = make_spelling(t)
     return deckprop.run_deck(PROP, 'deck%s' % (task,), deck, pre, what=('regions', 'compo', 'valid'), path_hook=spelling_hook(deck))
 
